@@ -198,7 +198,9 @@ func (f Field) Equals(other Field) bool {
 	switch f.Type {
 	case BinaryType, ByteStringType:
 		return bytes.Equal(f.Interface.([]byte), other.Interface.([]byte))
-	case ArrayMarshalerType, ObjectMarshalerType, ErrorType, ReflectType:
+	case ArrayMarshalerType, ObjectMarshalerType, ErrorType, ReflectType, StringerType, InlineMarshalerType:
+		// These carry user-supplied values whose dynamic type need not be
+		// comparable; == on them can panic.
 		return reflect.DeepEqual(f.Interface, other.Interface)
 	default:
 		return f == other
